@@ -42,9 +42,9 @@ type Prog struct {
 	// Normalisation (inline.go): helpers outside the rules' vocabulary that
 	// were merged into their callers.  Absorbed ones have no caller left and
 	// are hidden from Funcs.
-	CanonLog []string // private identifiers renamed back to their known names (canon.go)
-	Inlined  map[*ssa.Function]int
-	Absorbed map[*ssa.Function]bool
+	CanonLog  []string // private identifiers renamed back to their known names (canon.go)
+	Inlined   map[*ssa.Function]int
+	Absorbed  map[*ssa.Function]bool
 	InlineLog []string
 }
 
@@ -128,7 +128,7 @@ func Load(o LoadOpts) (*Prog, error) {
 	prog.Build()
 	p := &Prog{
 		CanonLog: canonLog,
-		Root: o.Root, GOOS: o.GOOS, GOARCH: o.GOARCH, Tests: o.Tests,
+		Root:     o.Root, GOOS: o.GOOS, GOARCH: o.GOARCH, Tests: o.Tests,
 		Fset: prog.Fset, Pkgs: pkgs, SSA: prog,
 		ByID: map[string]*packages.Package{}, SPkgs: map[string]*ssa.Package{},
 		funcs: map[string][]*ssa.Function{}, fileText: map[string][]byte{},
